@@ -11,6 +11,7 @@ import (
 // C02 — rendering is faithful: static content and values survive an HTML round trip.
 
 //verif:harness VerifC02_Structure quick.maxpaths=20000 thorough.maxpaths=100000 timeout=1800 steps=30000000
+//verif:harness VerifC02_AfterFailure poolreuse=lifo quick.maxpaths=20000 thorough.maxpaths=100000 timeout=1800
 //verif:harness VerifC02_Text quick.maxpaths=60000 thorough.maxpaths=300000 timeout=2400
 //verif:harness VerifC02_Interp quick.maxpaths=60000 thorough.maxpaths=300000 timeout=2400
 
@@ -203,4 +204,32 @@ func VerifC02_Interp() {
 		}
 		zzAssert(zzSquash(out) == zzSquash("<p>"+val+"</p>"), "C02.interp.v-html-verbatim")
 	}
+}
+
+// VerifC02_AfterFailure: a render that failed part-way (inside text, an
+// attribute, a loop or an include) leaves nothing behind that shows up in
+// the next, faithful render on the same process.
+func VerifC02_AfterFailure() {
+	failing := []string{
+		`<p>Dear {{ name | nosuchfilter }} tail</p>`,
+		`<p title="pre {{ name | nosuchfilter }}">x</p>`,
+		`<ul><li v-for="i in items">item {{ i }} {{ name | nosuchfilter }}</li></ul>`,
+		`<div>before<template include="missing.vuego"></template></div>`,
+		`<p :title="name | nosuchfilter">x</p>`,
+	}
+	k := zzChoice("failing", len(failing))
+	val := zzStringIn("val", 2, "<&a")
+	tpl := NewFS(newZZFS(map[string]string{"c.vuego": `<span>{{ p }}</span>`}))
+	data := map[string]any{"name": "N", "items": []int{1, 2}, "v": val}
+	_, err := zzRender(tpl, failing[k], data)
+	zzAssert(err != nil, "C02.afterfailure.program-fails")
+	good := `<p title="t-{{ v }}">Hello {{ v }}!</p>`
+	out, err2 := zzRender(tpl, good, data)
+	zzNote("out", out)
+	zzAssert(err2 == nil, "C02.afterfailure.render-error")
+	zzAssert(zzTagOpens(out) == 2 && zzTagQuotes(out) == 2, "C02.afterfailure.extra-markup")
+	zzAssert(zzSquash(zzUnescape(out)) == zzSquash(`<p title="t-`+val+`">Hello `+val+`!</p>`), "C02.afterfailure.text-is-neighbours-plus-value")
+	// and on a fresh engine as well (the pools are process-wide)
+	out2, err3 := zzRender(NewFS(newZZFS(map[string]string{"c.vuego": `<span>{{ p }}</span>`})), good, data)
+	zzAssert(err3 == nil && out2 == out, "C02.afterfailure.fresh-engine-differs")
 }
